@@ -59,8 +59,8 @@ def sym_int(x):
     return int(x)
 
 
-def tiny_engine(fl, n, ranges, values=None):
-    ivs = [fl.InputVariable(f"X{i}", minimum=ranges[i][0], maximum=ranges[i][1], terms=[fl.Rectangle("a", -1e6, 1e6)]) for i in range(n)]
+def tiny_engine(fl, n, ranges, values=None, same_names=False):
+    ivs = [fl.InputVariable("X0" if same_names else f"X{i}", minimum=ranges[i][0], maximum=ranges[i][1], terms=[fl.Rectangle("a", -1e6, 1e6)]) for i in range(n)]
     ov = fl.OutputVariable("O", minimum=0, maximum=1, defuzzifier=fl.WeightedAverage(), terms=[fl.Constant("a", 0.5)])
     e = fl.Engine("e", "", ivs, [ov], [])
     e.rule_blocks.append(fl.RuleBlock("rb", activation=fl.General(), rules=[fl.Rule.create("if X0 is a then O is a", e)]))
@@ -70,7 +70,7 @@ def tiny_engine(fl, n, ranges, values=None):
     return e
 
 
-def ob_grid(scope, n, vmax, inactive=None, label="", vmin=1):
+def ob_grid(scope, n, vmax, inactive=None, label="", vmin=1, same_names=False):
     def run(ob):
         fl = install()
         set_mode("R")
@@ -87,7 +87,7 @@ def ob_grid(scope, n, vmax, inactive=None, label="", vmin=1):
         def rbody(vals):
             return "\n".join([f"n = {n}; v = {vals['v']}; inactive = {inactive!r}; held = {lit(vals['held'])}",
                               f"R = {lit([[vals[f'lo{i}'], vals[f'hi{i}']] for i in range(n)])}",
-                              "ivs = [fl.InputVariable('X%d' % i, minimum=R[i][0], maximum=R[i][1], terms=[fl.Rectangle('a', -1e6, 1e6)]) for i in range(n)]",
+                              f"ivs = [fl.InputVariable({'chr(88) + chr(48)' if same_names else '(chr(88) + str(i))'}, minimum=R[i][0], maximum=R[i][1], terms=[fl.Rectangle('a', -1e6, 1e6)]) for i in range(n)]",
                               "ov = fl.OutputVariable('O', minimum=0, maximum=1, defuzzifier=fl.WeightedAverage(), terms=[fl.Constant('a', 0.5)])",
                               "e = fl.Engine('e', '', ivs, [ov], [])",
                               "e.rule_blocks.append(fl.RuleBlock('rb', activation=fl.General(), rules=[fl.Rule.create('if X0 is a then O is a', e)]))",
@@ -114,7 +114,7 @@ def ob_grid(scope, n, vmax, inactive=None, label="", vmin=1):
         rp = replay_fn(PROPERTY, label, rbody, key=None)
 
         def body():
-            e = tiny_engine(fl, n, R)
+            e = tiny_engine(fl, n, R, same_names=same_names)
             active = None
             if inactive is not None:
                 e.input_variables[inactive].value = held
@@ -361,6 +361,8 @@ def obligations(tier, seed):
         obs.append((f"grid/all-variables/n{n}", ob_grid("all", n, vm[n], label=f"grid/all-variables/n{n}")))
         obs.append((f"grid/each-variable/n{n}", ob_grid("each", n, 4 if n < 3 else 3, label=f"grid/each-variable/n{n}")))
     obs.append(("grid/all-variables/n2/inactive0", ob_grid("all", 2, 20, inactive=0, label="grid/all-variables/n2/inactive0")))
+    # input variables need not have distinct names (unnamed variables share the name ""): columns are per variable, not per name
+    obs.append(("grid/each-variable/n2/same-names", ob_grid("each", 2, 3, label="grid/each-variable/n2/same-names", same_names=True)))
     obs.append(("grid/each-variable/n3/inactive1", ob_grid("each", 3, 3, inactive=1, label="grid/each-variable/n3/inactive1")))
     # grids of more than a thousand rows (one table, one header, whatever the size): a window of values around 1024 and 33 x 33
     obs.append(("grid/each-variable/n1/large", ob_grid("each", 1, 1025, label="grid/each-variable/n1/large", vmin=1025)))
